@@ -59,14 +59,15 @@ func c13call(name string, args []otto.Value) (otto.Value, string) {
 
 var c13approx = map[string]bool{"sin": true, "cos": true, "tan": true, "asin": true, "acos": true, "atan": true, "exp": true, "log": true, "pow": true, "atan2": true}
 
-// numTok renders a number result: exact bit pattern, or (approximate family, finite non-zero) the top 40 bits.
+// numTok renders a number result: exact bit pattern, or (approximate family, finite non-zero) the pattern
+// rounded to its top 40 bits.
 func numTok(op string, v otto.Value) string {
 	if !v.IsNumber() {
 		return "not-a-number:" + h.ValTok(v)
 	}
 	f, _ := v.ToFloat()
 	if c13approx[op] && f != 0 && !math.IsNaN(f) && !math.IsInf(f, 0) {
-		return fmt.Sprintf("~%010x", math.Float64bits(f)>>24)
+		return fmt.Sprintf("~%010x", (math.Float64bits(f)+1<<23)>>24)
 	}
 	return h.F64Hex(f)
 }
@@ -198,7 +199,8 @@ func bucketStable(r float64) bool {
 	if class(r) != 3 {
 		return true
 	}
-	low := math.Float64bits(r) & (1<<24 - 1)
+	// buckets are centred on multiples of 2^24 (exact results such as 1.0 sit in the middle of theirs)
+	low := (math.Float64bits(r) + 1<<23) & (1<<24 - 1)
 	if low < 8192 || low > 1<<24-8192 {
 		return false
 	}
